@@ -389,26 +389,42 @@ Definition bio_reverse_complement (r : pyrecord) (id name description features a
 (* ---------- registries (registry/base.py) ------------------------------------------------ *)
 
 (* an Item: its id and the rest (entity, name, resistance), interned *)
-Record ibody := IB { ib_name : nat; ib_resistance : nat; ib_entity : nat }.
-Definition IB0 (n : nat) : ibody := IB n 0 0.
+Record ibody := IB { ib_name : nat; ib_resistance : option string; ib_entity : nat }.
+Definition IB0 (n : nat) : ibody := IB n None 0.
 Coercion IB0 : nat >-> ibody.
 Bind Scope nat_scope with ibody.
 Record regitem := RI { item_id : string; item_body : ibody }.
 (* Item(id=, name=, resistance=, entity=) *)
-Definition mk_Item (id : string) (name resistance entity : nat) : regitem := RI id (IB name resistance entity).
+Definition mk_Item (id : string) (name : nat) (resistance : option string) (entity : nat) : regitem :=
+  RI id (IB name resistance entity).
 
 (* ---------- what the registries read (registry/base.py: EmbeddedRegistry, FilesystemRegistry) --------- *)
 
 (* a GenBank record once parsed and wrapped as a CircularRecord, as far as the registries look at
-   it: id, name and description (interned), what find_resistance reports (None: it raises
-   RuntimeError), what the entity constructor / characterize returns (None: RuntimeError) *)
-Record grec := GR { gr_id : string; gr_name : nat; gr_description : nat; gr_resistance : option nat; gr_entity : option nat }.
+   it: id, name and description (interned), per feature the /label qualifier (absent, or the list
+   of its values: all that find_resistance reads), what the entity constructor / characterize
+   returns (None: RuntimeError) *)
+Record lfeat := LF { lf_label : option (list string) }.
+Record grec := GR { gr_id : string; gr_name : nat; gr_description : nat; gr_features : list lfeat; gr_entity : option nat }.
 Definition grec_id (r : grec) : string := gr_id r.
 Definition grec_name (r : grec) : nat := gr_name r.
 Definition grec_description (r : grec) : nat := gr_description r.
-Definition grec_set_id (r : grec) (v : string) : grec := GR v (gr_name r) (gr_description r) (gr_resistance r) (gr_entity r).
-Definition find_resistance (r : grec) : exc nat :=
-  match gr_resistance r with Some x => Ok x | None => Err XRuntimeError end.
+Definition grec_set_id (r : grec) (v : string) : grec := GR v (gr_name r) (gr_description r) (gr_features r) (gr_entity r).
+(* a record as find_resistance sees it: its id and its features' labels; Python sets of strings as
+   duplicate-free lists (only len(), pop() of a singleton and intersection with a dict's keys are used) *)
+Record lrec := LR { lr_id : string; lr_features : list lfeat }.
+Definition lrec_of (r : grec) : lrec := LR (gr_id r) (gr_features r).
+Definition lrec_id (r : lrec) : string := lr_id r.
+Definition lrec_features (r : lrec) : list lfeat := lr_features r.
+Definition lfeat_get (f : lfeat) (key : string) (default : list string) : list string :=
+  if String.eqb key "label" then match lf_label f with Some l => l | None => default end else default.
+Definition py_set_of_list (l : list string) : list string := nodup string_dec l.
+Definition set_inter_keys (s : list string) (d : list (string * string)) : list string :=
+  filter (fun x => existsb (String.eqb x) (map fst d)) s.
+Definition set_pop (s : list string) : exc string :=
+  match s with x :: _ => Ok x | [] => Err (XKeyError (KeyStr "pop from an empty set")) end.
+Definition strdict_get (d : list (string * string)) (k : string) : option string :=
+  match find (fun p => String.eqb (fst p) k) d with Some p => Some (snd p) | None => None end.
 Definition grec_entity (r : grec) : exc nat :=
   match gr_entity r with Some x => Ok x | None => Err XRuntimeError end.
 (* io.TextIOWrapper(f), Bio.SeqIO.read(handle, format), CircularRecord(record): parsing is the
